@@ -4,7 +4,7 @@
 //! Conventions adopted from the engine where the property text leaves them open (each was read
 //! from the code and is stated in C08's assumptions):
 //! * `=`/`<>` between values of different kinds are false/true (not unknown); `<,<=,>,>=` between
-//!   different kinds (other than Int/Float) and between booleans are unknown;
+//!   different kinds (other than Int/Float) are unknown; booleans order false < true;
 //! * Int/Float compare by value; Int arithmetic stays Int (`/` truncates), mixed is Float;
 //! * ORDER BY treats NULL as the largest value (last ascending, first descending);
 //! * `sum` over no non-NULL input is 0 (Cypher), `min/max/avg` NULL, `count` 0, `collect` [].
@@ -39,6 +39,9 @@ pub struct Mode {
     /// variant of `edge_props_lost` for the comma case: the WHERE was pushed below the point where the
     /// edge column degrades, so only RETURN sees NULLs
     pub edge_props_lost_return_only: bool,
+    /// variant of `edge_props_lost` for the WITH case: a sort planned after the WITH re-materialises the
+    /// columns once more and `type(r)` works again, only the properties stay lost
+    pub edge_types_kept: bool,
     /// a WITH alias returned by name goes through a node-id typed column: integers survive, NULL
     /// survives, every other value comes back as integer 0
     pub with_alias_as_nodeid: bool,
@@ -48,6 +51,9 @@ pub struct Mode {
     /// factorized execution of two consecutive plain hops: a first-level row whose second level is
     /// empty still yields one row, with the second hop's edge and node unbound (NULL)
     pub factorized_phantom: bool,
+    /// the WHERE of an OPTIONAL MATCH is applied to the joined table as an ordinary filter (rows whose
+    /// optional part fails the predicate disappear instead of keeping NULLs)
+    pub optional_where_global: bool,
 }
 
 #[derive(Debug, Clone, PartialEq)]
@@ -110,9 +116,12 @@ pub fn vals_equal(a: &Val, b: &Val) -> bool {
     }
 }
 
-/// Ordering for `<` etc.: numbers by value, strings lexicographically (bytes), else unknown.
+/// Ordering for `<` etc.: numbers by value, strings lexicographically (bytes), booleans false < true (the
+/// engine's filter orders them since the repair "filter expressions order booleans", as its range path and
+/// zone maps always did), else unknown.
 pub fn vals_order(a: &Val, b: &Val) -> Option<Ordering> {
     match (a, b) {
+        (Val::Bool(x), Val::Bool(y)) => Some(x.cmp(y)),
         (Val::Str(x), Val::Str(y)) => Some(x.as_bytes().cmp(y.as_bytes())),
         (x, y) if x.is_num() && y.is_num() => num_cmp(x, y),
         _ => None,
@@ -510,8 +519,48 @@ impl<'a> Evaluator<'a> {
             self.in_where.set(false);
         }
         self.trace.borrow_mut().n_filtered = rows.len();
-        if self.mode.edge_props_lost && self.mode.edge_props_lost_return_only && q.chains.len() > 1 {
-            *self.lost_edges.borrow_mut() = q.chains[0].steps.iter().filter_map(|(e, _)| e.var.clone()).collect();
+        if let Some(o) = &q.opt {
+            // OPTIONAL MATCH: all extensions that satisfy the clause's WHERE, or the row itself once
+            self.phantom_ok.set(0);
+            if self.mode.edge_props_lost {
+                // the left join's output columns are untyped: every edge variable is degraded from here on
+                *self.lost_edges.borrow_mut() = q.edge_vars();
+            }
+            let global = self.mode.optional_where_global;
+            let mut out = Vec::new();
+            for b in rows {
+                let mut ext = Vec::new();
+                let starts: Vec<usize> = match b.get(&o.chain.start.var) {
+                    Some(Bound::Node(n)) => vec![*n],
+                    _ => (0..self.g.n_nodes()).collect(),
+                };
+                for s in starts {
+                    if !self.node_ok(s, &o.chain.start, true) {
+                        continue;
+                    }
+                    let mut b2 = b.clone();
+                    b2.insert(o.chain.start.var.clone(), Bound::Node(s));
+                    self.match_steps(s, &o.chain.steps, &b2, &mut ext);
+                }
+                if let Some(f) = &o.filter
+                    && !global
+                {
+                    ext.retain(|x| self.pred(f, x) == Some(true));
+                }
+                if ext.is_empty() {
+                    out.push(b);
+                } else {
+                    out.extend(ext);
+                }
+            }
+            if let Some(f) = &o.filter
+                && global
+            {
+                self.in_where.set(true);
+                out.retain(|x| self.pred(f, x) == Some(true));
+                self.in_where.set(false);
+            }
+            rows = out;
         }
         if let Some(w) = &q.with {
             rows = rows
@@ -534,7 +583,7 @@ impl<'a> Evaluator<'a> {
             if self.mode.edge_props_lost {
                 // after WITH every passed-through edge variable is degraded
                 *self.lost_edges.borrow_mut() = q.edge_vars();
-                *self.lost_types.borrow_mut() = true;
+                *self.lost_types.borrow_mut() = !self.mode.edge_types_kept;
                 *self.lost_always.borrow_mut() = true;
             }
         }
